@@ -10,7 +10,7 @@ sys.path.insert(0, os.path.dirname(os.path.abspath(__file__)))
 from gen_design_tables import parse_log  # noqa: E402
 
 V = os.path.dirname(os.path.dirname(os.path.abspath(__file__)))
-for d in sorted(glob.glob(os.path.join(V, "seeded", "*"))):
+for d in sorted(x for x in glob.glob(os.path.join(V, "seeded", "*")) if os.path.isdir(x)):
     mp = os.path.join(d, "meta.json")
     if not os.path.exists(mp):
         continue
